@@ -3,7 +3,9 @@
 import sys, json
 from collections import defaultdict
 
-GROUPS = ["res", "bank", "oblig", "bind", "index", "ctx", "queue", "req", "vol", "cb", "slash"]
+GROUPS = ["res", "bank", "oblig", "bind", "index", "ctx", "queue", "req", "vol", "cb", "slash", "query"]
+# groups that exist only on the steps where they are written (not carried forward)
+STEP_ONLY = {"query"}
 
 def parse(path):
     """yield (hist_id, name, header_lines, ops{step:line}, res{step:res}, groups{step:{group:[lines]}}, viol[(step,prop,detail)])"""
@@ -71,8 +73,16 @@ def compare(impl_path, model_path, max_report=50):
             for g in GROUPS[1:]:
                 if g in bad:
                     continue
-                stats["group_comparisons"][g] += 1
-                a, b = ci.get(g, []), cm.get(g, [])
+                if g in STEP_ONLY:
+                    gi, gm = h["groups"].get(step, {}), m["groups"].get(step, {})
+                    if g not in gi and g not in gm:
+                        continue
+                    stats["group_comparisons"][g] += 1
+                    stats["group_comparisons"][g + ".lines"] = stats["group_comparisons"].get(g + ".lines", 0) + len(gi.get(g, []))
+                    a, b = gi.get(g, ["<group missing>"]), gm.get(g, ["<group missing>"])
+                else:
+                    stats["group_comparisons"][g] += 1
+                    a, b = ci.get(g, []), cm.get(g, [])
                 if a != b:
                     bad.add(g)
                     sa, sb = set(a), set(b)
@@ -85,6 +95,6 @@ def compare(impl_path, model_path, max_report=50):
 if __name__ == "__main__":
     stats, mism = compare(sys.argv[1], sys.argv[2])
     print(json.dumps(stats))
-    for x in mism[:40]:
+    for x in mism[:2000]:
         print(json.dumps(x))
     print("mismatches:", len(mism))
